@@ -13,8 +13,18 @@ LEVEL = "other"
 LONGEST_KNOWN_INSTRUCTION = 14
 
 
-def linear(prog, e, syms):
-    """e as {symbol: coeff} + const over the given symbol recognisers, or None"""
+def _is_unsigned(qt):
+    qt = qt.replace("const ", "").strip()
+    return qt.startswith("unsigned") or qt in ("size_t", "uint32_t", "uint64_t", "uint8_t", "uint16_t")
+
+
+def linear(prog, e, syms, defs=None, hazards=None):
+    """e as {symbol: coeff} + const over the given symbol recognisers, or None; single-assignment locals are
+    looked through (defs); subtractions carried out in, or converted to, an unsigned type are recorded as wrap hazards"""
+    if hazards is not None and e.get("kind") in ("ImplicitCastExpr", "CStyleCastExpr") and _is_unsigned(qtype(e)):
+        inner = strip(e, casts=True)
+        if inner.get("kind") == "BinaryOperator" and inner.get("opcode") == "-" and not _is_unsigned(qtype(inner)):
+            hazards.append("(%s)(%s)" % (qtype(e), expr_str(inner)))
     e = strip(e, casts=True)
     v = ConstEval(prog).try_eval(e)
     if v is not None:
@@ -22,8 +32,13 @@ def linear(prog, e, syms):
     for name, pred in syms.items():
         if pred(e):
             return {name: 1}
+    if defs and e.get("kind") == "DeclRefExpr" and ref_name(e) in defs:
+        return linear(prog, defs[ref_name(e)], syms, defs, hazards)
     if e.get("kind") == "BinaryOperator" and e.get("opcode") in ("+", "-"):
-        a, b = linear(prog, kids(e)[0], syms), linear(prog, kids(e)[1], syms)
+        if e["opcode"] == "-" and hazards is not None:
+            if _is_unsigned(qtype(e)):
+                hazards.append(expr_str(e))
+        a, b = linear(prog, kids(e)[0], syms, defs, hazards), linear(prog, kids(e)[1], syms, defs, hazards)
         if a is None or b is None:
             return None
         out = dict(a)
@@ -46,8 +61,17 @@ def room_predicate(chk, prog, roles):
         raise AnalysisBroken("room check %s has no test" % roles.room_check)
     c = strip(kids(first_if)[0])
     K = None
+    defs = {}
+    for m in walk(prog.body(f)):
+        if m.get("kind") == "VarDecl" and kids(m):
+            defs[m["name"]] = kids(m)[-1]
+    for m in walk(prog.body(f)):      # locals assigned again are not single-assignment
+        if m.get("kind") in ("BinaryOperator", "CompoundAssignOperator") and m.get("opcode", "").endswith("=") and \
+                m.get("opcode") not in ("==", "!=", "<=", ">=") and ref_name(kids(m)[0]) in defs:
+            defs.pop(ref_name(kids(m)[0]), None)
+    hazards = []
     if c.get("kind") == "BinaryOperator" and c.get("opcode") in (">", "<", ">=", "<="):
-        l, r = linear(prog, kids(c)[0], syms), linear(prog, kids(c)[1], syms)
+        l, r = linear(prog, kids(c)[0], syms, defs, hazards), linear(prog, kids(c)[1], syms, defs, hazards)
         if l is not None and r is not None:
             d = dict(l)
             for k, v in r.items():
@@ -64,6 +88,9 @@ def room_predicate(chk, prog, roles):
         chk.broken("ROOM", "ROOM/predicate", where, "the room test is a linear comparison of position and buffer_len", expr_str(c))
         return None, first_if
     mv = macro_values(prog, ["BUFFER_TOLERANCE", "MEM_BUFFER"])
+    chk.require(not hazards, "ROOM", "ROOM/wrap", where,
+                "the room test is evaluated without an unsigned subtraction (which wraps when the buffer is shorter than the reserve or the position is beyond it)",
+                "unsigned subtraction %s" % hazards)
     chk.require(K >= 20, "ROOM", "ROOM/reserve", where,
                 "an instruction is only written when buffer_len - position >= K with K >= 20 (the documented reserve)", "K = %d" % K)
     chk.require(K >= LONGEST_KNOWN_INSTRUCTION, "RESV", "RESV/longest-known", where,
